@@ -24,7 +24,10 @@ func init() {
 	natives["encoding/json.Unmarshal"] = func(fr *frame, a []value) value {
 		ref, ok := a[0].(docRef)
 		if !ok {
-			panic(unsupported("json.Unmarshal of concrete bytes"))
+			if data, isConcrete := concreteBytes(a[0]); isConcrete {
+				return fr.i.jsonUnmarshalConcrete(fr, data, a[1].(iface))
+			}
+			panic(unsupported("json.Unmarshal of bytes with symbolic elements"))
 		}
 		return fr.i.docDecode(fr, ref, a[1].(iface), false)
 	}
